@@ -812,6 +812,29 @@ def kf_hk_repulsive_branch(check_name, desc, viol):
             viol.tag == f"widths_decrease:hk:{desc.get('geometry')}")
 
 
+def kf_hk_repulsive_target_bound(check_name, desc, viol):
+    """HK / HK-CY cylinder and sphere (the non-monotone potentials of KF-C17-4), second symptom: a pressure whose only
+    solution inside the search range lies on the REPULSIVE wall next to the geometric minimum (the attractive-branch
+    solution would be wider than 50 nm) is reported as the 50 nm search bound, which does not solve the equation.
+    Matches only when the witness width really lies where the potential still falls with width (repulsive wall) and
+    the reported width is the upper search bound."""
+    import re
+    if not (desc.get("geometry") in ("cylinder", "sphere") and str(desc.get("model", "")).startswith("HK")
+            and viol.tag == "not_a_solution:hk" and "the search stopped at: bound" in viol.message):
+        return False
+    m_rep = re.search(r"reported L = ([0-9.eE+-]+) nm", viol.message)
+    m_wit = re.search(r"although L = ([0-9.eE+-]+) nm", viol.message)
+    if not (m_rep and m_wit) or float(m_rep.group(1)) < 50.0 - 1e-3:
+        return False
+    try:
+        _, mat_arg, _ = _materials(desc)
+        box = capture_closure(desc["model"], desc["geometry"], desc["T"], dict(desc["adsorbate"]), mat_arg)
+        L_t = float(m_wit.group(1))
+        return float(box["f"](L_t * 1.001)) < float(box["f"](L_t))  # potential still falling: repulsive wall
+    except Exception:  # noqa - cannot establish the class: not known
+        return False
+
+
 CHECKS = [
     Check("slit_hk_roundtrip", check_slit_roundtrip, strategy=strat_roundtrip, budget={"quick": 1600, "thorough": 40000},
           rule="pressures from the harness's published slit HK equation for chosen widths; raw function and "
